@@ -5,7 +5,7 @@
    written element and never a `..` — so rustc's rules (Shape.v: definitional models of
    E0026/E0027 and E0023/E0308, compared with the real compiler on every run) apply to the written
    pattern. *)
-From ASModel Require Import Base Tokens Report Ast IR Expand Parser FrontEnd Shape.
+From ASModel Require Import Base Tokens Report Ast IR Expand Parser FrontEnd Shape Print.
 From ASProofs Require Import ParserP ShapeP.
 
 Theorem c12_struct_checked_as_written : forall j id path rest fields e names r decl,
@@ -50,6 +50,12 @@ Theorem c12_tuple_arity : forall j id sp elems e,
   lowered_arity (expand j (PTuple id sp elems) e) = Some (List.length elems).
 Proof. exact tuple_pattern_arity. Qed.
 Print Assumptions c12_tuple_arity.
+
+(* ... and the tokens printed for those sub-patterns ARE a Rust tuple pattern of that arity (one element included: `( x , )`) *)
+Theorem c12_printed_tuple_pattern_has_the_written_arity : forall prefix bs,
+  rust_tuple_arity (term_by (Print.comma SCall) (map (Print.pp_binder prefix) bs)) = Some (List.length bs).
+Proof. exact printed_tuple_pattern_arity. Qed.
+Print Assumptions c12_printed_tuple_pattern_has_the_written_arity.
 
 Theorem c12_variant_arity : forall j id path elems e,
   elems <> [] -> lowered_arity (expand j (PEnum id path elems) e) = Some (List.length elems).
